@@ -132,7 +132,7 @@ def decorate(case, rng, dflags):
     if dflags.get('outline'):
         marks['outline'] = []
         if rng.random() < 0.6:
-            blk('outline', [f'    !$loki outline name(kern_o1) in(n, a1, s1) inout({a_out})', '    do jz = 1, n',
+            blk('outline', [f'    !$loki outline name(kern_o1) in(n,a1,s1) inout({a_out})', '    do jz = 1, n',
                             f'      {a_out}(jz) = {a_out}(jz) + a1(jz)*s1', '    end do', '    !$loki end outline'])
         else:
             blk('outline', ['    !$loki outline', '    do jz = 1, n', '      zw(jz) = zw(jz) + a1(jz)*s1', '    end do',
@@ -291,10 +291,12 @@ def make_case(rng, idx, gates=None):
     pf['named_cycle_exit'] = bool(gates.get('named_cycle_exit'))
     pf['mixed_case'] = False
     pf['expr_depth'] = rng.choice([2, 3])
+    pf['where'] = rng.random() < 0.5
     for k, v in (gates.get('pflags') or {}).items():
         pf[k] = v
     case = ProgGen(rng, pf).generate()
     df = {k: rng.random() < 0.6 for k in DECOR_FLAGS}
+    df['stmt_func'] = rng.random() < 0.25
     df['constants'] = df['constants'] and pf['kinds_module']
     df['wrap_region'] = rng.choice([None, 'outline', 'remove', 'outline'])
     df['mixed_case'] = bool(gates.get('mixed_case', rng.random() < 0.25))
@@ -414,7 +416,7 @@ def _seq_trafo(x, o):
 
 def _subst_trafo(x, o):
     T = _T()
-    emap = {'s1': 's1 + 0.0_%s' % x.wc.rk, 'zs': 'zs'} if o['map'] == 'expr' else {'i1': 'i1 + 0'}
+    emap = {'a1(1)': 'a1(n)', 'zf(jz)': 'zf(1)'} if o['map'] == 'expr' else {'t1%p': 't1%q(1)', 'a1(jz)': 'a1(jz) + s1'}
     t = T.SubstituteExpressionTransformation(expression_map=emap, substitute_body=o['body'], substitute_spec=o['spec'])
     t.apply(x.kern, role='kernel')
 
@@ -469,7 +471,10 @@ def _resolve_dim(x, o):
 
 def _inline_funcs(x, o):
     T = _T()
-    T.inline_functions(x.kern, inline_elementals_only=o['elem_only'])
+    fns = None
+    if o['functions'] == 'explicit':
+        fns = [r for r in x.mod.subroutines if r.name.lower() in ('hfun', 'hele')]
+    T.inline_functions(x.kern, inline_elementals_only=o['elem_only'], functions=fns)
 
 
 def _inline_trafo(x, o):
@@ -566,7 +571,9 @@ REGISTRY = [
     # ---- utilities.py
     Entry('convert_to_lower_case', _each('convert_to_lower_case'), {'on': ['kern', 'all']}, group='utilities', c40=True),
     Entry('replace_intrinsics', _replace_intr, {'fmap': B, 'smap': B, 'cs': B}, group='utilities'),
-    Entry('rename_variables', _rename, {'vars': ['local', 'arg', 'loop', 'dim']}, group='utilities'),
+    Entry('rename_variables', _rename, {'vars': ['local', 'loop']}, group='utilities'),
+    Entry('rename_variables(host-used)', _rename, {'vars': ['arg', 'dim']},
+          gate=lambda wc: wc.marks['has']['isub'] or wc.marks['has']['ifun'], group='utilities'),
     Entry('sanitise_imports', _each('sanitise_imports'), {'on': ['kern', 'all']}, group='utilities', c40=True),
     Entry('sanitise_imports(module)', lambda x, o: _T().sanitise_imports(x.mod), group='utilities', c40=True),
     Entry('replace_selected_kind', _each('replace_selected_kind'), pre=_has('local_kind'), group='utilities'),
@@ -581,7 +588,7 @@ REGISTRY = [
     Entry('do_resolve_sequence_association', _each('do_resolve_sequence_association'), pre=_has('seq_assoc'),
           group='sanitise', c40=True),
     Entry('SequenceAssociationTransformation', _seq_trafo, pre=_has('seq_assoc'), group='sanitise'),
-    Entry('SubstituteExpressionTransformation', _subst_trafo, {'map': ['expr', 'int'], 'body': B, 'spec': B},
+    Entry('SubstituteExpressionTransformation', _subst_trafo, {'map': ['expr', 'member'], 'body': B, 'spec': B},
           group='sanitise'),
     Entry('SanitiseTransformation', _sanitise_trafo, {'assoc': B, 'seq': B}, group='sanitise'),
     Entry('SanitisePipeline', _sanitise_pipeline, {'seq': B}, group='sanitise'),
@@ -595,7 +602,7 @@ REGISTRY = [
     Entry('LowerConstantArrayIndices', _lower_const, {'recurse': B, 'ext': B}, group='array_indexing'),
     Entry('demote_variables', _demote, {'v': ['zv', 'zv+w2']}, group='array_indexing'),
     Entry('promote_variables', _promote, {'pos': [0, -1], 'index': B, 'size': B},
-          pre=lambda wc, o: o['index'] or o['size'], group='array_indexing'),
+          pre=lambda wc, o: o['index'] and o['size'], group='array_indexing'),
     Entry('remove_explicit_array_dimensions', _each('remove_explicit_array_dimensions'), {'calls_only': B},
           group='array_indexing', c40=True),
     Entry('add_explicit_array_dimensions', _each('add_explicit_array_dimensions'), group='array_indexing', c40=True),
@@ -607,7 +614,8 @@ REGISTRY = [
     Entry('inline_constant_parameters', _each('inline_constant_parameters'), {'external_only': B},
           gate=lambda wc: wc.rk == 'jprb', group='inline'),
     Entry('inline_elemental_functions', _each('inline_elemental_functions'), group='inline'),
-    Entry('inline_functions', _inline_funcs, {'elem_only': B}, group='inline'),
+    Entry('inline_functions', _inline_funcs, {'elem_only': B, 'functions': ['explicit', None]},
+          pre=lambda wc, o: wc.marks['has']['hfun'] or wc.marks['has']['hele'], group='inline'),
     Entry('inline_statement_functions', _each('inline_statement_functions'), pre=_has('stmt_func'), group='inline'),
     Entry('inline_internal_procedures', _each('inline_internal_procedures'),
           pre=lambda wc, o: wc.marks['has']['isub'] or wc.marks['has']['ifun'], group='inline'),
